@@ -368,46 +368,52 @@ def decErrSrc (code src : Nat) : Nat := if code = kParseErrorEscapedUnicode then
 /-- the private copy: `kbuf.resize(sn + 32); memcpy(&kbuf[0], sp, sn + 1)` -/
 def mkKbuf (raw : List Nat) (junk : Nat → Nat) : List Nat := raw ++ (List.range 31).map junk
 
+/-- the key comparison of `obj_key`: `sp` = index of the first key byte, `sn` = number of raw key bytes (the
+    closing quote is at `sp + sn`), `skips` = result of `SkipString` (1 or 2).
+    `.inl (code, pos)` = `return -code` (escaped key that does not decode),
+    `.inr b` = `sn == key.size() && memcmp(sp, key.data(), sn) == 0` (on the decoded copy when `skips == 2`) -/
+def keyCmp (W : Nat) (d : List Nat) (junk : Nat → Nat) (key : List Nat) (sp sn skips : Nat) :
+    M ((Nat × Nat) ⊕ Bool) :=
+  if skips == 2 then do
+    let raw ← rdVec d sp (sn + 1)                          -- `std::memcpy(nsrc, sp, sn + 1)`
+    match decRun W (mkKbuf raw junk) with
+    | .error _ => throw Fault.kbuf
+    | .ok (.err code, src) => pure (.inl (code, sp + decErrSrc code src))
+    | .ok (.ok n _ b, _) =>
+      if n = key.length then
+        if n ≤ b.length then pure (.inr (b.take n == key)) else throw Fault.kbuf
+      else pure (.inr false)
+  else
+    if sn = key.length then do
+      let raw ← rdVec d sp sn
+      pure (.inr (raw == key))
+    else pure (.inr false)
+
 /-- label `obj_key` up to `goto query` / an error return.  `pos` is AT the opening quote of a key.
     `.inl (code, pos)` = `return -code`; `.inr (pos, cache)` = the key matched, `goto query`. -/
 def objKey (W : Nat) (d : List Nat) (junk : Nat → Nat → Nat) (key : List Nat) :
     Nat → Cache → Nat → M ((Nat × Nat) ⊕ (Nat × Cache))
   | 0, _, _ => .error .fuel
   | f + 1, cache, pos => do
-    let pos := pos + 1                                    -- advance quote
-    let sp := pos
-    let (skips, pos) ← skipString W d pos
+    let sp := pos + 1                                     -- advance quote
+    let r ← skipString W d sp
+    let skips := r.1
+    let pos := r.2
     if skips == 0 then pure (.inl (kParseErrorInvalidChar, decPos pos)) else
     if pos < sp + 1 then throw Fault.ub else                -- `sn = data + pos - 1 - sp` is never negative here
     let sn := pos - 1 - sp
-    -- `.inl` = error return, `.inr b` = `sn == key.size() && memcmp(sp, key.data(), sn) == 0`
-    let cmp : (Nat × Nat) ⊕ Bool ←
-      if skips == 2 then do
-        let raw ← rdVec d sp (sn + 1)
-        match decRun W (mkKbuf raw (junk sp)) with
-        | .error _ => throw Fault.kbuf
-        | .ok (.err code, src) => pure (.inl (code, sp + decErrSrc code src))
-        | .ok (.ok n _ b, _) =>
-          if n = key.length then
-            if n ≤ b.length then pure (.inr (b.take n == key)) else throw Fault.kbuf
-          else pure (.inr false)
-      else
-        if sn = key.length then do
-          let raw ← rdVec d sp sn
-          pure (.inr (raw == key))
-        else pure (.inr false)
-    match cmp with
+    match ← keyCmp W d (junk sp) key sp sn skips with
     | .inl e => pure (.inl e)
     | .inr isMatch =>
-      let (c, pos, cache) ← skipSpaceSafe d cache pos
-      if c != 0x3A then pure (.inl (kParseErrorInvalidChar, decPos pos)) else
-      if isMatch then pure (.inr (pos, cache)) else
-      let (c, pos, cache) ← skipSpaceSafe d cache pos
-      let (ok, pos) ← skipCSQ W d c pos
-      if !ok then pure (.inl (kParseErrorInvalidChar, decPos pos)) else
-      let (t, pos) ← getNextToken W d [0x22, 0x7D] pos
-      if t != 0x22 then pure (.inl (kParseErrorUnknownObjKey, pos))
-      else objKey W d junk key f cache pos
+      let r ← skipSpaceSafe d cache pos
+      if r.1 != 0x3A then pure (.inl (kParseErrorInvalidChar, decPos r.2.1)) else
+      if isMatch then pure (.inr (r.2.1, r.2.2)) else
+      let r ← skipSpaceSafe d r.2.2 r.2.1
+      let s ← skipCSQ W d r.1 r.2.1
+      if !s.1 then pure (.inl (kParseErrorInvalidChar, decPos s.2)) else
+      let t ← getNextToken W d [0x22, 0x7D] s.2
+      if t.1 != 0x22 then pure (.inl (kParseErrorUnknownObjKey, t.2))
+      else objKey W d junk key f r.2.2 t.2
 
 /-- label `query` of `SkipScanner::GetOnDemand`, by recursion on the remaining path -/
 def query (W : Nat) (d : List Nat) (junk : Nat → Nat → Nat) : List Step → Cache → Nat → M Res
